@@ -23,6 +23,7 @@ from xknx.remote_value import (
     RemoteValueTemp,
 )
 from xknx.remote_value.remote_value_setpoint_shift import SetpointShiftMode
+from xknx.telegram import TelegramDirection
 
 from .climate_mode import ClimateMode
 from .device import Device, DeviceCallbackType
@@ -374,8 +375,20 @@ class Climate(Device):
 
     def process_group_write(self, telegram: GroupValueTelegram) -> None:
         """Process incoming and outgoing GROUP WRITE telegram."""
+        base_temperature = self.base_temperature
         for remote_value in self._iter_remote_values():
             remote_value.process(telegram)
+        if (
+            base_temperature is not None
+            and telegram.direction is TelegramDirection.OUTGOING
+            and telegram.destination_address == self._setpoint_shift.group_address
+            and self._setpoint_shift.value is not None
+        ):
+            # our own setpoint shift moves the target temperature, not the base
+            # temperature - also if the thermostat reports its new target late or never
+            self.target_temperature.update_value(
+                base_temperature + self._setpoint_shift.value
+            )
 
         if self.mode is not None:
             self.mode.process_group_write(telegram)
